@@ -72,6 +72,12 @@ CLAIMED["C09"] = dict(
     note=TB_COMMON + "ASCII identifiers/white space only; parsing of the right-hand side by SymPy is outside the model ('ok' = passes the structural checks); JSON object order = Python dict order.",
     ref="DESIGN.md 4 C09")
 
+CLAIMED["C16"] = dict(
+    technique="Lean 4 theorems about a model of the script's control flow, flag mapping and result-file naming (string lemmas on List Char); subprocess differential runs of the real script against the in-process API",
+    text="Proof (PARTIAL - script logic): flags_passed_through (incl. bare --preserve-expressions = True), content_eq_api / written_iff_all_succeeded / failure_nonzero_no_file for arbitrary file-system, JSON-loader and API behaviour, resultName_spec / resultName_last_extension_only / resultName_no_extension for all paths (directories with dots included). Tie: the real ode_analyzer.py is run in a subprocess in a temporary directory on generated files (valid, missing, invalid JSON, malformed system) under all flag combinations, file placements and extensions; exit status, produced file name and content are compared with the model and with the in-process analysis().",
+    note=TB_COMMON + "argparse semantics, the interpreter's exit status for an uncaught exception, json and the file system are contracts observed through the runs, not modelled.",
+    ref="DESIGN.md 4 C16")
+
 NOT_YET = {}
 
 def main():
